@@ -4,7 +4,7 @@ CONSTANTS
   Cid <- MCCid
   Qof <- MCQof
   Transport = "udp"
-  AnswerRcode = "ok"
+  AnswerRcode = "nx"
   CheckQuestion = TRUE
   MaxSends = 4
   MaxSocks = 3
